@@ -148,15 +148,19 @@ def pyIntGo (acc : Nat) (prevDigit : Bool) : List Char → Option Nat
 /-- Python `int(text)` for the texts that can reach it here: optional surrounding blanks, an optional
 sign, then ASCII digits, single underscores allowed between digits.  (Non-ASCII decimal digits, which
 Python's `int` also accepts, are outside the model.) -/
-def pyInt (s : List Char) : Option Int :=
-  let s := stripBlank s
-  let (neg, body) := match s with
-    | '-' :: r => (true, r)
-    | '+' :: r => (false, r)
-    | r => (false, r)
+def pyIntBody (neg : Bool) (body : List Char) : Option Int :=
   match body with
   | [] => none
-  | _ => (pyIntGo 0 false body).map fun n => if neg then -(n : Int) else (n : Int)
+  | _ =>
+    match pyIntGo 0 false body with
+    | none => none
+    | some n => some (if neg then -(Int.ofNat n) else Int.ofNat n)
+
+def pyInt (s : List Char) : Option Int :=
+  match stripBlank s with
+  | '-' :: r => pyIntBody true r
+  | '+' :: r => pyIntBody false r
+  | r => pyIntBody false r
 
 /-- one block of the character loop of `parse_units`: separator, symbol text, exponent text -/
 structure Block where
@@ -187,7 +191,7 @@ structure Acc where
   time : Option String := none
   qty : Option String := none
   dim : Dim := Dim.zero
-  deriving Repr
+  deriving Repr, DecidableEq
 
 /-- `addunit(field, su, se)` -/
 def Acc.add (a : Acc) (field su : String) (se : Int) : Res Acc :=
@@ -202,32 +206,62 @@ def Acc.add (a : Acc) (field su : String) (se : Int) : Res Acc :=
     else .error .badUnit
   else .error .badUnit
 
-/-- the per-block body of the second loop of `parse_units` -/
-def Acc.addBlock (a : Acc) (b : Block) : Res Acc := do
-  let e ← match (if b.exp.isEmpty then pyInt puDefaultExp.toList else pyInt b.exp) with
-    | some e => pure (if b.sep == puNegSep then -e else e)
-    | none => throw Err.badSyntax
-  let sym := String.ofList b.sym
+/-- exponent pass of `parse_units` for one block: `if b[2] == "": b[2] = "1"`, `b[2] = int(b[2])`,
+`if b[0] == "/": b[2] = -b[2]`; `none` = `int()` raises -/
+def blockExp (b : Block) : Option Int :=
+  match (if b.exp.isEmpty then pyInt puDefaultExp.toList else pyInt b.exp) with
+  | some e => some (if b.sep == puNegSep then -e else e)
+  | none => none
+
+/-- the `addunit` calls a symbol gives rise to: (field, base unit, exponent multiplier), in call order;
+error = `undefined unit` / `unexpected unit` -/
+def symContrib (sym : String) : Res (List (String × String × Int)) :=
   match unitType sym with
-  | none => throw Err.badUnit
-  | some "space" => addUnit_space.foldlM (fun a (f, m) => a.add f sym (e * m)) a
-  | some "time" => addUnit_time.foldlM (fun a (f, m) => a.add f sym (e * m)) a
-  | some "quantity" => addUnit_quantity.foldlM (fun a (f, m) => a.add f sym (e * m)) a
+  | none => .error .badUnit
+  | some "space" => .ok (addUnit_space.map fun (f, m) => (f, sym, m))
+  | some "time" => .ok (addUnit_time.map fun (f, m) => (f, sym, m))
+  | some "quantity" => .ok (addUnit_quantity.map fun (f, m) => (f, sym, m))
   | some "volume" =>
     match volBase.lookup sym with
-    | none => throw Err.badUnit
-    | some base => addUnit_volume.foldlM (fun a (f, m) => a.add f base (e * m)) a
+    | none => .error .badUnit
+    | some base => .ok (addUnit_volume.map fun (f, m) => (f, base, m))
   | some "density" =>
     match concBase.lookup sym with
-    | none => throw Err.badUnit
-    | some (q, sp) =>
-      addUnit_density.foldlM (fun a (f, m) => a.add f (if f == "space" then sp else q) (e * m)) a
-  | some _ => throw Err.badUnit
+    | none => .error .badUnit
+    | some (q, sp) => .ok (addUnit_density.map fun (f, m) => (f, if f == "space" then sp else q, m))
+  | some _ => .error .badUnit
 
-/-- `parse_units(s)` on a character list.  Note the order of the code: all exponents are read
-(`int(...)`) for every block *before* any symbol is looked up. -/
-def parseUnitsChars (s0 : List Char) : Res Units :=
-  let s := stripBlank (uSubst.foldl (fun acc (a, b) => replaceAll a.toList b.toList acc) s0)
+/-- the `addunit` calls of one block, in order, with the block's exponent `e` -/
+def Acc.addAll (a : Acc) (e : Int) : List (String × String × Int) → Res Acc
+  | [] => .ok a
+  | (f, su, m) :: r =>
+    match a.add f su (e * m) with
+    | .error x => .error x
+    | .ok a' => a'.addAll e r
+
+/-- the per-block body of the second loop of `parse_units` -/
+def Acc.addBlock (a : Acc) (b : Block) : Res Acc :=
+  match blockExp b with
+  | none => .error .badSyntax
+  | some e =>
+    match symContrib (String.ofList b.sym) with
+    | .error x => .error x
+    | .ok cs => a.addAll e cs
+
+/-- the second loop of `parse_units` -/
+def Acc.addBlocks (a : Acc) : List Block → Res Acc
+  | [] => .ok a
+  | b :: bs =>
+    match a.addBlock b with
+    | .error x => .error x
+    | .ok a' => a'.addBlocks bs
+
+/-- preprocessing of `parse_units`: the `u`→`µ` replace chain, then `strip()` -/
+def prepUnits (s0 : List Char) : List Char :=
+  stripBlank (uSubst.foldl (fun acc (a, b) => replaceAll a.toList b.toList acc) s0)
+
+/-- `parse_units` after preprocessing -/
+def parseUnitsCore (s : List Char) : Res Units :=
   if s.isEmpty then .ok ⟨Sys.default, Dim.zero⟩
   else if puRejectsInnerBlank && s.any isBlank then .error .badSyntax   -- whitespace inside the unit text is rejected
   else
@@ -235,11 +269,15 @@ def parseUnitsChars (s0 : List Char) : Res Units :=
     -- first loop: every exponent text must be readable by `int()`
     if blocks.any (fun b => !b.exp.isEmpty && (pyInt b.exp).isNone) then .error .badSyntax
     else
-      match blocks.foldlM (fun a b => a.addBlock b) ({} : Acc) with
+      match ({} : Acc).addBlocks blocks with
       | .error e => .error e
       | .ok acc =>
         let sys : Sys := ⟨acc.space.getD defaultSpace, acc.time.getD defaultTime, acc.qty.getD defaultQty⟩
         if sys.valid then .ok ⟨sys, acc.dim⟩ else .error .badUnit
+
+/-- `parse_units(s)` on a character list.  Note the order of the code: all exponents are read
+(`int(...)`) for every block *before* any symbol is looked up. -/
+def parseUnitsChars (s0 : List Char) : Res Units := parseUnitsCore (prepUnits s0)
 
 def parseUnits (s : String) : Res Units := parseUnitsChars s.toList
 
